@@ -8,7 +8,7 @@
 #define HM_FED(c)   SM3_FED(&(c)->sm3_ctx)
 #define HM_TBYTE(c) SM3_TBYTE(&(c)->sm3_ctx)
 #define HM_TSEEN(c) SM3_TSEEN(&(c)->sm3_ctx)
-uint64_t G_hfin_fed; uint8_t G_hfin_tbyte; uint8_t G_hfin_tseen; unsigned G_hfin_calls; const void *G_hfin_mac;
+uint64_t G_hfin_fed; uint8_t G_hfin_tbyte; uint8_t G_hfin_tseen; unsigned G_hfin_calls; size_t G_hfin_mac;
 #endif
 void sm3_hmac_init(SM3_HMAC_CTX *ctx, const uint8_t *key, size_t keylen)
 REQUIRES(WR_OK(ctx, sizeof(*ctx)) && keylen <= 4096 && RD_OK(key, keylen))
@@ -27,6 +27,6 @@ void sm3_hmac_finish(SM3_HMAC_CTX *ctx, uint8_t mac[SM3_HMAC_SIZE])
 REQUIRES(RW_OK(ctx, sizeof(*ctx)) && WR_OK(mac, 32))
 ASSIGNS(OBJ_UPTO(mac, 32), G_hfin_fed, G_hfin_tbyte, G_hfin_tseen, G_hfin_calls, G_hfin_mac)
 ENSURES(G_hfin_fed == HM_FED(ctx) && G_hfin_tbyte == HM_TBYTE(ctx) && G_hfin_tseen == HM_TSEEN(ctx)
-	&& G_hfin_calls == OLD(G_hfin_calls) + 1 && G_hfin_mac == (const void *)mac)
+	&& G_hfin_calls == OLD(G_hfin_calls) + 1 && G_hfin_mac == (size_t)mac)
 ;
 #endif
